@@ -29,6 +29,47 @@ static int op_nbits(toks_t *t)
   return 1;
 }
 
+/* a private copy of jchuff.c, compiled with the verification guard on and its global names changed, so that the intermediate array
+   codesize[] of jpeg_gen_optimal_table() can be read through the LJT_VERIF hook (a no-op in the library proper) */
+#define LJT_VERIF
+void (*ljt_verif_codesize_hook) (const int *codesize, int n) = NULL;
+#define jpeg_make_c_derived_tbl vh_make_c_derived_tbl
+#define jpeg_gen_optimal_table vh_gen_optimal_table
+#define jinit_huff_encoder vh_jinit_huff_encoder
+#define c_derived_tbl vh_c_derived_tbl          /* jchuff.h has no include guard and is already included above */
+#include "jchuff.c"
+#undef c_derived_tbl
+#undef jpeg_make_c_derived_tbl
+#undef jpeg_gen_optimal_table
+#undef jinit_huff_encoder
+#undef LJT_VERIF
+static int gencs_cs[257], gencs_n;
+static void gencs_grab(const int *cs, int n) { gencs_n = n; memcpy(gencs_cs, cs, sizeof(int) * (size_t)n); }
+
+/* gencs <sym count>* : codesize[0 .. num_nz_symbols-1] of the real merge loop */
+static int op_gencs(toks_t *t)
+{
+  struct jpeg_compress_struct c; my_err_t e; long freq[257]; JHUFF_TBL h; int i;
+  memset(freq, 0, sizeof(freq));
+  for (i = 1; i + 1 < t->n; i += 2) { long s = tl(t, i); if (s >= 0 && s < 257) freq[s] = tl(t, i + 1); }
+  memset(&h, 0, sizeof(h));
+  c.err = my_err_init(&e);
+  if (setjmp(e.jb)) { printf("R err %d\n", e.code); ljt_verif_codesize_hook = NULL; jpeg_destroy_compress(&c); return 1; }
+  jpeg_create_compress(&c);
+  gencs_n = -1; ljt_verif_codesize_hook = gencs_grab;
+  vh_gen_optimal_table(&c, &h, freq);
+  ljt_verif_codesize_hook = NULL;
+  if (gencs_n < 0) { printf("R skip nohook\n"); printf("O fail gencs: the LJT_VERIF hook of jpeg_gen_optimal_table was not reached\n"); jpeg_destroy_compress(&c); return 1; }
+  printf("R cs");
+  for (i = 0; i < gencs_n; i++) printf(" %d", gencs_cs[i]);
+  printf("\n");
+  /* the property's own clause on the real array: the pseudo-symbol (last slot) is on the deepest level */
+  for (i = 0; i < gencs_n; i++) if (gencs_cs[i] > gencs_cs[gencs_n - 1]) { printf("O fail gencs: symbol slot %d has Huffman depth %d, the pseudo-symbol only %d\n", i, gencs_cs[i], gencs_cs[gencs_n - 1]); jpeg_destroy_compress(&c); return 1; }
+  printf("O ok\n");
+  jpeg_destroy_compress(&c);
+  return 1;
+}
+
 static int op_genopt(toks_t *t)
 {
   struct jpeg_compress_struct c;
@@ -234,6 +275,7 @@ static int dispatch_c19(toks_t *t)
 {
   const char *op = t->tok[0];
   if (!strcmp(op, "nbits")) return op_nbits(t);
+  if (!strcmp(op, "gencs")) return op_gencs(t);
   if (!strcmp(op, "genopt")) return op_genopt(t);
   if (!strcmp(op, "cderive")) return op_cderive(t);
   if (!strcmp(op, "dderive")) return op_dderive(t);
